@@ -172,7 +172,8 @@ def expected_labels(labels_at, v):
     return out
 
 
-def gen_upgrade(rng, two_apps=False, with_new_model=None, max_edits=4):
+def gen_upgrade(rng, two_apps=False, with_new_model=None, max_edits=4,
+                with_rename=False):
     """One single-batch upgrade V0 -> V1 over the *full* mutation space (the
     C01 generator), optionally with a brand-new model at V1 (model creation +
     deferred SQL).  -> History with 2 specs."""
@@ -187,6 +188,8 @@ def gen_upgrade(rng, two_apps=False, with_new_model=None, max_edits=4):
     psig = S.project_sig(classes, apps_order=list(spec0))
     ops = ['add_field'] * 5 + ['delete_field'] * 3 + ['rename_field'] * 2 + \
         ['change_field'] * 6 + ['change_meta'] * 3
+    if with_rename:
+        ops = ops + ['rename_model'] * 4
     edits, specs, _rej = seqcase.gen_walk(
         rng, gen, spec0, rng.randint(1, max_edits), psig, ops=ops)
     spec1 = specs[-1]
